@@ -1,7 +1,7 @@
 //! suiron_harness: runs the real suiron implementation on generated inputs and prints
 //! CASE / IMPL / ORACLE / STAT lines (see out.rs).  Usage:
 //!   suiron_harness <suite> --props C06,C07 --seed N --n N [--exhaustive] [--shard i/n] [--anon] [--func]
-mod prng; mod codec; mod gen; mod refuni; mod refarith; mod out; mod suite_unify;
+mod prng; mod codec; mod gen; mod refuni; mod refarith; mod out; mod capture; mod suite_unify; mod suite_engine;
 
 use out::Out;
 
@@ -24,6 +24,15 @@ fn main() {
         None => (0, 1),
     };
     let mut out = Out::new();
+    out.skip = arg_val(&args, "--skip").and_then(|s| s.parse().ok()).unwrap_or(0);
+    // watchdog: a single case that runs longer than the limit ends the process (exit code 86);
+    // check.py then asks the model about that case and resumes after it
+    let limit_ms: u64 = arg_val(&args, "--case-timeout-ms").and_then(|s| s.parse().ok()).unwrap_or(6000);
+    std::thread::spawn(move || loop {
+        std::thread::sleep(std::time::Duration::from_millis(200));
+        let st = out::CASE_START_MS.load(std::sync::atomic::Ordering::SeqCst);
+        if st != 0 && out::now_ms() > st + limit_ms { std::process::exit(86); }
+    });
     // run on a big stack: deep recursion of the implementation must not be the harness' limit
     let child = std::thread::Builder::new().stack_size(256 << 20).spawn(move || {
         match suite.as_str() {
@@ -36,6 +45,18 @@ fn main() {
                 }
                 else if has(&args, "--exhaustive") { suite_unify::run_exhaustive(&mut out, &cfg, u.anon, u.func, shard, nshards); }
                 else { suite_unify::run_random(&mut out, &cfg, &u, seed, n); }
+            },
+            "engine" => {
+                let cfg = suite_engine::Cfg{props};
+                let mut w = suite_engine::Weights::all();
+                if has(&args, "--pure") { w = suite_engine::Weights::pure_(); }
+                if let Some(v) = arg_val(&args, "--cut") { w.cut = v.parse().unwrap(); }
+                if let Some(v) = arg_val(&args, "--not") { w.not = v.parse().unwrap(); }
+                if let Some(v) = arg_val(&args, "--print") { w.print = v.parse().unwrap(); }
+                if let Some(body) = arg_val(&args, "--replay-case") {
+                    match suite_engine::dec_case(&body) { Some(c) => suite_engine::emit(&mut out, &cfg, &c), None => { eprintln!("cannot decode case"); std::process::exit(2); } }
+                }
+                else { suite_engine::run_random(&mut out, &cfg, &w, seed, n); }
             },
             _ => { eprintln!("unknown suite {}", suite); std::process::exit(2); },
         }
